@@ -6,6 +6,9 @@ every statement is indented, which is the region where the scanner's line/column
 (checked on every run against spans reported by the real front end, see spanprobe in run.py)."""
 
 
+SUBST = None  # when set ({const name: (type, value)}), constants are printed as their values (C12 twin programs)
+
+
 # ----------------------------------------------------------------------------- types
 class Ty:
     def __eq__(self, o):
@@ -68,6 +71,8 @@ class TArrC(Ty):
         return (self.elem, self.n, self.size_src)
 
     def src(self):
+        if SUBST is not None:
+            return "[%s; %d]" % (self.elem.src(), self.n)
         return "[%s; %s]" % (self.elem.src(), self.size_src)
 
 
@@ -445,7 +450,11 @@ class Printer:
             self.w(e.text)
             return (s, self.pos())
         if isinstance(e, Var):
-            self.w(e.name)
+            if SUBST is not None and e.name in SUBST:
+                t, v = SUBST[e.name]
+                self.w(lit_src(t, v))
+            else:
+                self.w(e.name)
             return (s, self.pos())
         if isinstance(e, Un):
             self.w(e.op)
@@ -520,7 +529,7 @@ class Printer:
         if isinstance(e, ArrRep):
             self.w("[")
             self.expr(e.e, ind, 0)
-            self.w("; %s]" % (e.size_src if e.size_src is not None else str(e.n)))
+            self.w("; %s]" % (e.size_src if e.size_src is not None and SUBST is None else str(e.n)))
             return (s, self.pos())
         if isinstance(e, Range):
             self.w("%s..%s" % (lit_src(e.ety, e.lo, e.suffix), lit_src(e.ety, e.hi, e.suffix)))
